@@ -8,35 +8,38 @@ import (
 	llotypes "github.com/smartcontractkit/chainlink-common/pkg/types/llo"
 )
 
-func VerifyChannelDefinitions(codecs map[llotypes.ReportFormat]ReportCodec, channelDefs llotypes.ChannelDefinitions) (merr error) {
+func VerifyChannelDefinitions(codecs map[llotypes.ReportFormat]ReportCodec, channelDefs llotypes.ChannelDefinitions) error {
 	if len(channelDefs) > MaxOutcomeChannelDefinitionsLength {
 		return fmt.Errorf("too many channels, got: %d/%d", len(channelDefs), MaxOutcomeChannelDefinitionsLength)
 	}
+	// Collect the errors and join them once: joining one at a time nests
+	// them, and formatting a nested chain of n errors copies O(n^2) bytes.
+	var errs []error
 	uniqueStreamIDs := make(map[llotypes.StreamID]struct{}, len(channelDefs))
 	for channelID, cd := range channelDefs {
 		if len(cd.Streams) == 0 {
-			merr = errors.Join(merr, fmt.Errorf("ChannelDefinition with ID %d has no streams", channelID))
+			errs = append(errs, fmt.Errorf("ChannelDefinition with ID %d has no streams", channelID))
 			continue
 		}
 		if len(cd.Streams) > MaxStreamsPerChannel {
-			merr = errors.Join(merr, fmt.Errorf("ChannelDefinition with ID %d has too many streams, got: %d/%d", channelID, len(cd.Streams), MaxStreamsPerChannel))
+			errs = append(errs, fmt.Errorf("ChannelDefinition with ID %d has too many streams, got: %d/%d", channelID, len(cd.Streams), MaxStreamsPerChannel))
 			continue
 		}
 		for _, strm := range cd.Streams {
 			if strm.Aggregator == 0 {
-				merr = errors.Join(merr, fmt.Errorf("ChannelDefinition with ID %d has stream %d with zero aggregator (this may indicate an uninitialized struct)", channelID, strm.StreamID))
+				errs = append(errs, fmt.Errorf("ChannelDefinition with ID %d has stream %d with zero aggregator (this may indicate an uninitialized struct)", channelID, strm.StreamID))
 				continue
 			}
 			uniqueStreamIDs[strm.StreamID] = struct{}{}
 		}
 		if codec, ok := codecs[cd.ReportFormat]; ok {
 			if err := codec.Verify(cd); err != nil {
-				merr = errors.Join(merr, fmt.Errorf("invalid ChannelDefinition with ID %d: %w", channelID, err))
+				errs = append(errs, fmt.Errorf("invalid ChannelDefinition with ID %d: %w", channelID, err))
 				continue
 			}
 		}
 	}
-	if merr != nil {
+	if merr := errors.Join(errs...); merr != nil {
 		return merr
 	}
 	if len(uniqueStreamIDs) > MaxObservationStreamValuesLength {
